@@ -39,6 +39,8 @@ def run(ck, tier):
     for paths in variants:
         for c in range(chunks):
             jobs.append((paths, ["rand", nrand, ck.seed * 1000 + c], "rand"))
+        # concurrent callers (the only user calls the kernel from an omp-for)
+        jobs.append((paths, ["rand", nrand * 2, ck.seed * 1000 + 500, 8], "rand-8-threads"))
         for sig, nmax in exh:
             jobs.append((paths, ["exh", sig, nmax], "exh"))
     res = common.pmap(lambda j: (j, _run_drv(ck, j[0], j[1], j[2])), jobs)
@@ -55,6 +57,8 @@ def run(ck, tier):
         ck.count("pairs_with_nonzero_distance", s["dist_nonzero"])
         for i, x in enumerate(s["per_blocks"]):
             per_blocks[i] += x
+        if label.startswith("rand-"):
+            ck.count("pairs_run_by_8_concurrent_callers", s["pairs"])
         if label == "exh":
             ck.cset("exhaustive_subspaces", "%s: sigma=%s n<=%s (%d pairs)" % (v, args[1], args[2], s["pairs"]))
         ck.sample({"variant": v, "args": [str(a) for a in args], "summary": s})
